@@ -550,7 +550,10 @@ func execCluster(run *core.Run, p *plan) {
 			run.Probe("meta-node-restarted")
 		}
 	}
-	time.Sleep(30 * time.Second)
+	// raft retries a follower it failed to reach many times in a row with a
+	// back-off that grows to about 40 seconds, and an election may come on
+	// top: two simulated minutes of a healthy network before progress is demanded
+	time.Sleep(120 * time.Second)
 	for _, pc := range outstanding {
 		select {
 		case <-pc.done:
@@ -565,11 +568,31 @@ func execCluster(run *core.Run, p *plan) {
 		return
 	}
 	if err != nil {
-		run.Fail("no-progress-after-heal", "", "with all three meta nodes up and connected for 30 simulated seconds a new command still fails: %v\n%s\n%s", err, c.nodeStates(), metaStacks())
+		run.Fail("no-progress-after-heal", "", "with all three meta nodes up and connected for two simulated minutes a new command still fails: %v\n%s\n%s", err, c.nodeStates(), metaStacks())
 		return
 	}
 	exists["final"] = "yes"
 	time.Sleep(15 * time.Second)
+	// A follower the leader failed to reach many times in a row (slow or lossy
+	// links, a partition) is retried by raft with a back-off that grows to
+	// about 40 seconds: the nodes get up to three more simulated minutes to
+	// show the last change before they are compared.
+	for waited := 0; waited < 180; waited += 5 {
+		all := true
+		for _, n := range c.nodes {
+			b, code, err := c.get(fmt.Sprintf("http://%s/?index=0", n.http))
+			var d meta.Data
+			if err != nil || code != 200 || d.UnmarshalBinary(b) != nil || d.Database("final") == nil {
+				all = false
+				break
+			}
+		}
+		if all {
+			break
+		}
+		run.Probe("waited-for-a-lagging-follower")
+		time.Sleep(5 * time.Second)
+	}
 	// every node's metadata
 	var canon []string
 	for _, n := range c.nodes {
